@@ -2,9 +2,11 @@
 
 REAL_NATIVE = ["native.Package", "native.CombinedPackage", "native.CombinedImporter", "native.Packages"]
 
-HOOK_COMMITS = []
+HOOK_COMMITS = ["65a4ceb"]
 
 ENGINES = [
+    {"name": "vmsim", "path": "/verif/sim/sched + /verif/sim/props/{c14,c11,c10}", "serves_properties": ["C14", "C11", "C10"],
+     "kind_free_text": "deterministic scheduler for code running on Scriggo's VM: real goroutines inside a testing/synctest bubble park on private condition variables at the guarded hooks (every instruction, before/after every channel operation, go statements, natives, writers); the bubble root draws the next goroutine, its quantum, the winning select case, cancellation points and clock jumps from one recorded stream; gc-compiled reference; race-detector mode"},
     {"name": "faultsim", "path": "/verif/sim/props/{c12,c13,c22}", "serves_properties": ["C12", "C13", "C22"],
      "kind_free_text": "sequential fault enumeration through public seams (callback / io.Writer / native-call boundary): every fault point k of a fault-free run is re-executed with the fault injected at k; choices come from one recorded stream (sim/choice), failures are shrunk and replayed (sim/harness)"},
 ]
@@ -51,5 +53,21 @@ CHECKS = {
         "level_text": "Per generated program every native-call fault point is enumerated with three fault kinds. Stop/Fatal oracles are self-referential (exact error/value identity; the event sequence is the fault-free sequence cut at the fault: nothing, deferred or not, ran afterwards). Panic oracles compare events, outcome, the whole panic chain with recovered flags, and the path/line of every chain element with the same program compiled by gc under the same fault plan.",
         "level_note": "Trusts gc (go1.26.8) as the semantics of defer/panic/recover and the parsing of its crash header; panic values are strings, ints and errors.New values; panics inside native callbacks are always recovered inside the callback (Scriggo documents an unrecovered callback panic as fatal by design).",
         "assumptions": ["gc's `panic: v [recovered]` header format (stable since Go 1.18)", "programs only use language features Scriggo supports (no methods)"],
+    },
+    "C14": {
+        "id": "C14", "pkg": "c14", "test": "TestC14", "level": "exploration",
+        "runs": {"quick": 128, "thorough": 4000},
+        "race_runs": {"quick": 32, "thorough": 800},
+        "chunk": 64, "min_chunk": 16, "run_timeout_s": 30, "shrink_allowance_s": 600,
+        "selftest": {"quick": 8, "thorough": 32}, "selftest_procs": {"quick": 3, "thorough": 9},
+        "rule": "each run draws a concurrent program (1-4 blocks from: pipeline, fan-out/fan-in, ping-pong, mutex-by-channel, select with several simultaneously ready receive / send cases, select loop with quit channel, go with 0-12 mixed arguments optionally deep in the stack or from a deferred function, channel of channels, wait-group by counting channel, last-producer-closes; element types int..uint64, floats, string, bool, slice, pointer, interface, func, struct, map; buffered and unbuffered) whose output is schedule-independent by construction, and executes it under 8 (quick) / 24 (thorough) / 4 (race mode) seeded schedules (uniform, run-to-block, alternate, priority change points; select-case choice drawn; with/without a never-cancelled context). "
+                "evaluations = simulated executions; distinct_nontrivial = distinct (program, context-switch trace hash) pairs with at least one context switch",
+        "components": {"real": ["scriggo.Build", "Program.Run", "VM incl. startGoroutine, OpSend/OpReceive/OpSelect/OpRange/OpClose via reflect", "real goroutines and real channels inside a testing/synctest bubble", "Go race detector (race-mode runs)"],
+                       "stub": ["goroutine scheduling: parked on private sync.Cond at the verif hooks, released one at a time by the seeded scheduler", "reflect.Select's random choice: non-chosen ready cases neutralised so that the stream decides", "gc-compiled build of the same source (GOMAXPROCS 1 and 8, plus -race in race mode) as reference output"]},
+        "engine": "vmsim", "design_ref": "DESIGN.md section 5, C14",
+        "technique": "deterministic simulation: seeded scheduler over real goroutines (synctest bubble + guarded VM hooks) deciding every interleaving and select choice; gc reference output; race detector under a serial, replayable schedule",
+        "level_text": "Seeded search over schedules of generated concurrent programs. The oracle is exact (printed output equals gc's, Run returns nil, no host panic, every goroutine finished, no deadlock, no step-cap), and in race mode the race detector observes only the interpreter's own synchronisation because parked goroutines wait on private condition variables. A clean batch is evidence, not proof: schedules and programs are sampled.",
+        "level_note": "Trusts gc as reference, the generator's by-construction schedule independence (cross-checked by running gc at GOMAXPROCS 1 and 8 and under gc -race in race mode), and the channel readiness model (a disagreement with reality aborts with exit 2, never a violation).",
+        "assumptions": ["programs stay inside the block catalogue", "no goroutine panics under Go semantics"],
     },
 }
